@@ -27,12 +27,12 @@ func init() {
 			"a commit-before-callback is observed through the decorator's event order (package Range) and through VerifSnapshot inside the callback (Buffer.Range)",
 		},
 		Families: []core.Family{
-			{Name: "long-txn", N: core.TierN(100, 1000), Batch: 4, Run: c02Long},
-			{Name: "short-shared-porcupine", N: core.TierN(1000, 15000), Batch: 50, Run: c02Short},
+			{Name: "long-txn", N: core.TierN(100, 4000), Batch: 4, Run: c02Long},
+			{Name: "short-shared-porcupine", N: core.TierN(1000, 60000), Batch: 50, Run: c02Short},
 			{Name: "seq-exhaustive", N: core.TierN(9, 81), Batch: 3, Run: c02SeqExhaustive},
-			{Name: "range-pkg", N: core.TierN(400, 4000), Batch: 30, Run: c02RangePkg},
-			{Name: "range-buffer", N: core.TierN(300, 3000), Batch: 20, Run: c02RangeBuffer},
-			{Name: "range-buffer-faults", N: core.TierN(150, 1500), Batch: 25, Run: c02RangeBufferFaults},
+			{Name: "range-pkg", N: core.TierN(400, 16000), Batch: 30, Run: c02RangePkg},
+			{Name: "range-buffer", N: core.TierN(300, 12000), Batch: 20, Run: c02RangeBuffer},
+			{Name: "range-buffer-faults", N: core.TierN(150, 6000), Batch: 25, Run: c02RangeBufferFaults},
 		},
 	})
 }
